@@ -240,7 +240,7 @@ def run(prog, rep, tier):
                 seen_.add(o_[1])
                 cc_ = [z for z in pb_.calls if z.bb == o_[1]][0]
                 nm_ = (cc_.o or cc_.d).split("::")[-1]
-                if nm_ in ("canonicalize", "read_link", "realpath"):
+                if nm_ in ("canonicalize", "realpath"):   # read_link resolves one level only: a chain of links is typed by its middle
                     canon_ = True
                 elif nm_ in ("unwrap_or_else", "unwrap_or", "unwrap", "to_path_buf", "clone", "into", "from", "expect", "unwrap_or_default", "map", "ok", "and_then", "to_owned", "as_path"):
                     work_.extend(a for a in cc_.args if a[0] != "k")
